@@ -297,6 +297,11 @@ func runC07(c *fw.Ctx) {
 		// +0.0 and -0.0 are the same value (==), in every position
 		{L(F(0)), L(F(math.Copysign(0, -1)))}, {O("z", F(math.Copysign(0, -1))), O("z", F(0))}, {L(I(1), L(F(math.Copysign(0, -1)), F(0))), L(I(1), L(F(0), F(math.Copysign(0, -1))))},
 		{L(F(math.Copysign(0, -1))), L(I(0))},
+		// matrices with the same cells in the same order, rows cut at other places (same number of rows, same number of cells)
+		{L(L(I(1), I(2)), L(I(3))), L(L(I(1)), L(I(2), I(3)))}, {L(L(I(1)), L(I(2)), L(I(3), I(4))), L(L(I(1), I(2)), L(I(3)), L(I(4)))},
+		{L(L(), L(I(1), I(2))), L(L(I(1)), L(I(2)))}, {O("m", L(L(S("a"), S("b")), L(S("c")))), O("m", L(L(S("a")), L(S("b"), S("c"))))},
+		{L(L(L(I(1), I(2)), L(I(3))), L(L(I(4)))), L(L(L(I(1)), L(I(2), I(3))), L(L(I(4))))}, {L(L(I(1), I(2)), L(I(3), I(4))), L(L(I(1), I(2), I(3)), L(I(4)))},
+		{L(O("a", I(1), "b", I(2)), O("c", I(3))), L(O("a", I(1)), O("b", I(2), "c", I(3)))},
 		// infinities are values like any other (NaN-free data): equal to themselves, different from each other and from the
 		// largest finite numbers
 		{L(F(math.Inf(1))), L(F(math.Inf(1)))}, {O("k", F(math.Inf(-1)), "l", L(F(math.Inf(1)))), O("l", L(F(math.Inf(1))), "k", F(math.Inf(-1)))},
